@@ -22,7 +22,7 @@ Definition iau_cubic (T : R) : R :=
   eps0 + (-46.8150 * T - 0.00059 * T * T + 0.001813 * T * T * T) / 3600.
 Definition uj (j : R) : R := (j - 2451545) / 3652500.
 
-Lemma laskar_small u : Rabs u <= 0.2 -> Rabs (laskar u) < 3600.
+Lemma laskar_small u : Rabs u <= 0.4 -> Rabs (laskar u) < 3600.
 Proof. intros H. apply Rabs_le_bounds in H. unfold laskar. interval. Qed.
 
 Lemma laskar_vs_iau T : Rabs T <= 20 ->
@@ -60,7 +60,7 @@ Ltac bind_step tac :=
 Ltac powfix := unfold Q2R; cbn [QArith_base.Qnum QArith_base.Qden].
 Ltac next_bind := rewrite bind_ok by reflexivity; cbv beta.
 
-Lemma mean_obliquity_poly j : Rabs (uj j) <= 0.2 ->
+Lemma mean_obliquity_poly j : Rabs (uj j) <= 0.4 ->
   f_mean_obliquity Rops (VTuple [epo j]) (VDict []) = ang (eps0 + laskar (uj j) / 3600).
 Proof.
   intros Hu. pose proof (laskar_small _ Hu) as Hl.
@@ -113,7 +113,7 @@ Qed.
 
 (* unconditional form: no assumption on what nutation_obliquity returns (an error, OutOfFuel
    included, propagates through bind; a non-Angle value is refused by Angle.__add__ itself) *)
-Lemma true_obliquity_structure j : Rabs (uj j) <= 0.2 ->
+Lemma true_obliquity_structure j : Rabs (uj j) <= 0.4 ->
   f_true_obliquity Rops (VTuple [epo j]) (VDict []) =
   bind (f_nutation_obliquity Rops (VTuple [epo j]) (VDict []))
        (fun de => Angle___add__ Rops (ang (eps0 + laskar (uj j) / 3600)) de).
